@@ -65,6 +65,8 @@ type obs struct {
 	hookDone      atomic.Bool
 	logFrom       int
 	logTo         int
+	seqFrom       int64
+	seqTo         int64
 	layout        string
 }
 
@@ -334,6 +336,7 @@ func (h *hist) doRead(si, oi, rep int, st *sessState, path string, keys []string
 		})
 	}
 	o.logFrom = h.u.Log.Len()
+	o.seqFrom = h.u.Log.Now()
 	t0 := time.Now()
 	defer func() {
 		if d := time.Since(t0); d > 300*time.Millisecond && debugOn() {
@@ -368,6 +371,7 @@ func (h *hist) doRead(si, oi, rep int, st *sessState, path string, keys []string
 	}
 	st.rd.Net.SetDecider(nil)
 	o.logTo = h.u.Log.Len()
+	o.seqTo = h.u.Log.Now()
 	for _, c := range h.u.Log.CallsFrom(o.logFrom) {
 		if c.Client != st.rd.ID {
 			continue
@@ -411,9 +415,23 @@ func describe(o *obs) string {
 	if o.err != "" {
 		fmt.Fprintf(&b, " ERR %.120s", o.err)
 	} else {
-		fmt.Fprintf(&b, " => %v", o.got)
+		b.WriteString(" => [")
+		for i, p := range o.got {
+			if i > 0 {
+				b.WriteByte(' ')
+			}
+			fmt.Fprintf(&b, "%q=%s", p.K, short(p.V))
+		}
+		b.WriteByte(']')
 	}
 	return b.String()
+}
+
+func short(v string) string {
+	if len(v) > 20 {
+		return fmt.Sprintf("%q..(%d bytes)", v[:12], len(v))
+	}
+	return fmt.Sprintf("%q", v)
 }
 
 func bound(b []byte) string {
@@ -511,8 +529,12 @@ func (h *hist) pickRange() (lower, upper []byte) {
 	if len(lower) > 0 && len(upper) > 0 && bytes.Compare(lower, upper) > 0 {
 		lower, upper = upper, lower
 	}
-	if h.rng.Intn(12) == 0 && len(lower) > 0 {
-		upper = append([]byte(nil), lower...) // lower == upper
+	if h.rng.Intn(8) == 0 {
+		// lower == upper: an empty range, mostly on a (possible) region border
+		if len(lower) == 0 || h.rng.Intn(3) > 0 {
+			lower = []byte(h.points[h.rng.Intn(len(h.points))])
+		}
+		upper = append([]byte(nil), lower...)
 	}
 	return
 }
